@@ -280,6 +280,8 @@ def run_program_in(spec, res, d, h):
             f = g
             res.facet('source:disk')
     trace = []
+    derived = []
+    source = f
 
     def on_step(phase, st, pre):
         if phase == 'before':
@@ -331,12 +333,43 @@ def run_program_in(spec, res, d, h):
                          op=st.op, diffs=d[:8], meta=st.meta,
                          shared=[list(p) for p in shared[:16]])
         restore()
+        if st.in_domain and st.op not in ('fn_pncexpr',):
+            derived.append((st.desc, out))
 
     allowed = None
     if spec.get('fn'):
         allowed = list(ops.CORE_OPS) + list(ops.FN_OPS) * 2
     ops.run_program(f, spec['prog_seed'], spec['nops'], allowed=allowed,
                     on_step=on_step)
+    if derived and ops.on_disk(source) and hasattr(source, 'close'):
+        # closing is local: the files derived from a file on disk are other
+        # files, and closing the source must leave each of them as it was
+        # (state right before the close: later steps may have written into
+        # earlier results through aliasing that is judged elsewhere)
+        snaps = []
+        for desc, out in derived:
+            try:
+                snaps.append((desc, out, snapshot.snap_file(out)))
+            except Exception:
+                pass
+        try:
+            source.close()
+        except Exception:
+            return
+        res.hook('close-source.recheck', len(snaps))
+        for desc, out, snap0 in snaps:
+            try:
+                now = snapshot.snap_file(out)
+                dd = snapshot.diff_file(snap0, now)
+            except Exception as e:
+                dd = ['no longer readable: %r' % (e,)]
+            if dd:
+                res.viol('close-invalidates-derived:%s' % desc.split('(')[0],
+                         'after closing the source file (opened from disk), '
+                         'the file %s returned earlier: %s (program %s)'
+                         % (desc, '; '.join(dd[:4]), trace),
+                         op=desc.split('(')[0], diffs=dd[:8])
+                break
 
 
 # ---------------------------------------------------------------------------
@@ -463,11 +496,55 @@ def run_query_in(spec, res, d, h):
     for name, thunk in qs:
         pre = snapshot.snap_file(f)
         err = None
+        ans = None
         try:
-            thunk()
+            ans = thunk()
         except (Exception, SystemExit) as e:
             err = e     # pncdump calls exit() when it fails
         res.hook('query.return')
+        if isinstance(ans, np.ndarray) and ans.size and err is None and \
+                not name.startswith('save'):
+            # what a query hands out is the caller's: writing into it must
+            # not change what the same query answers next (no hidden state
+            # shared with the answer)
+            try:
+                first = np.ma.array(ans, copy=True)
+                scribbled = False
+                try:
+                    if ans.dtype == object:
+                        ans += datetime.timedelta(hours=6)
+                    elif ans.dtype.kind in 'fiu':
+                        ans += np.asarray(7).astype(ans.dtype)
+                    elif ans.dtype.kind == 'M':
+                        ans += np.timedelta64(6, 'h')
+                    else:
+                        raise TypeError
+                    scribbled = True
+                except Exception:
+                    pass
+                if scribbled:
+                    again = thunk()
+                    res.hook('query.answer-alias-test')
+                    same = isinstance(again, np.ndarray) and \
+                        again.shape == first.shape and bool(np.all(
+                            np.ma.getmaskarray(np.ma.array(again)) ==
+                            np.ma.getmaskarray(first))) and bool(np.all(
+                                np.ma.array(again).filled(0) ==
+                                first.filled(0)))
+                    if not same:
+                        res.viol('query-answer-aliases-state:%s'
+                                 % name.split('(')[0],
+                                 'after writing into the array %s returned, '
+                                 'the same query on the unchanged %s file '
+                                 'answers %s instead of %s'
+                                 % (name, spec['kind'],
+                                    np.asarray(again).ravel()[:3].tolist()
+                                    if isinstance(again, np.ndarray)
+                                    else again,
+                                    first.ravel()[:3].tolist()),
+                                 query=name, filekind=spec['kind'])
+            except Exception as e3:
+                res.note('answer-alias-test-failed:%s' % type(e3).__name__)
         try:
             post = snapshot.snap_file(f)
         except Exception as e2:
